@@ -5,6 +5,7 @@ applied to the stored init segment and the pssh boxes found in the response.  Or
 walker): which pssh boxes must be there (SystemID per selected system whose locations include
 moov, the track's KID inside), nothing else differs."""
 import itertools
+import struct
 import uuid
 
 from .. import common, boxwalk
@@ -128,10 +129,18 @@ def run(ctx):
                             sk = [x.raw for x in sb.children]
                             gk = [x.raw for x in gb.children]
                             if mode == 'live':
-                                # a direct mehd child may be removed in live mode
-                                sk_live = [x.raw for x in sb.children if x.type != b'mehd']
-                                prefix_ok = gk[:len(sk)] == sk or gk[:len(sk_live)] == sk_live
-                                base_n = len(sk) if gk[:len(sk)] == sk else len(sk_live)
+                                # live: the mehd box is gone - a direct child of moov, and the one inside moov/mvex (the size of
+                                # mvex shrinks by it, nothing else changes)
+                                def without_mehd(x):
+                                    if x.type != b'mvex':
+                                        return x.raw
+                                    body = b''.join(k.raw for k in x.children if k.type != b'mehd')
+                                    return struct.pack('>I4s', 8 + len(body), b'mvex') + body
+                                sk_live = [without_mehd(x) for x in sb.children if x.type != b'mehd']
+                                prefix_ok = gk[:len(sk_live)] == sk_live
+                                base_n = len(sk_live)
+                                if any(k.type == b'mehd' for x in gb.children for k in ([x] + list(x.children))):
+                                    ctx.violation('%s: the live initialization segment still carries a mehd box' % url, inp)
                             else:
                                 prefix_ok = gk[:len(sk)] == sk
                                 base_n = len(sk)
